@@ -28,9 +28,9 @@ fn shapes(n: u16) -> Vec<Shape> {
     (2..=n).map(|t| Shape { n, t }).collect()
 }
 
-/// stratum encoding: kind*100000 + n*10000 + t*1000 + t_b*100 + part*10 + own
+/// stratum encoding (decimal fields): kind(1) n(2) t(2) t_b(2) part(2) own(1)
 fn enc(kind: u32, s: Shape, t_b: u16, part: u32, own: u32) -> u32 {
-    kind * 100000 + s.n as u32 * 10000 + s.t as u32 * 1000 + t_b as u32 * 100 + part * 10 + own
+    kind * 1_000_000_000 + s.n as u32 * 10_000_000 + s.t as u32 * 100_000 + t_b as u32 * 1000 + part * 10 + own
 }
 
 impl Property for C09 {
@@ -46,7 +46,8 @@ impl Property for C09 {
          filling of the participant's n-1 round-one slots with {A, B, absent} and, where part2 succeeds, every filling of its n-1 round-two \
          slots with {(run, addressee != sender)} or absent; additionally every round-one filling with the participant's OWN slot \
          filled by its own contribution to run A or B (and its own round-two share when part2 emits one); then all 2^n common round-one sets jointly. Quick: n=3 all t for all six \
-         suites, n=4 all t for the five fast suites; thorough: n=4 for all six suites plus sampled histories for n in {5,6}. One \
+         suites, n=4 all t for the five fast suites; additionally sampled histories for n = 10 and 12 (first and last participant: perfect delivery, every round-two slot with each \
+         kind of single deviation, random fillings); thorough: n=4 for all six suites plus sampled histories for n in {5,6}. One \
          evaluation per part2/part3 execution. non-trivial = every history other than perfect delivery of one run; distinct = distinct \
          (suite, n, t, participant, own run, round-one filling, round-two filling) tuples"
             .into()
@@ -87,6 +88,18 @@ impl Property for C09 {
                 }
             }
         }
+        // larger groups, sampled: perfect delivery plus single deviations in every round-two slot
+        if !(suite.slow() && tier == Tier::Quick) {
+            for (n, t) in [(10u16, 2u16), (12, 3)] {
+                if suite.slow() && n > 10 {
+                    continue;
+                }
+                let s = Shape { n, t };
+                for part in [0u32, n as u32 - 1] {
+                    v.push((enc(2, s, t, part, 0), 1));
+                }
+            }
+        }
         if tier == Tier::Thorough {
             for n in [5u16, 6] {
                 for s in shapes(n) {
@@ -109,10 +122,10 @@ impl Property for C09 {
         8
     }
     fn strategy(&self, _suite: SuiteId, _tier: Tier, stratum: u32) -> BoxedStrategy<Case> {
-        let kind = stratum / 100000;
-        let shape = Shape { n: ((stratum / 10000) % 10) as u16, t: ((stratum / 1000) % 10) as u16 };
-        let t_b = ((stratum / 100) % 10) as u16;
-        let part = ((stratum / 10) % 10) as u8;
+        let kind = stratum / 1_000_000_000;
+        let shape = Shape { n: ((stratum / 10_000_000) % 100) as u16, t: ((stratum / 100_000) % 100) as u16 };
+        let t_b = ((stratum / 1000) % 100) as u16;
+        let part = ((stratum / 10) % 100) as u8;
         let own_b = stratum % 10 == 1;
         // identifier style: mixed non-contiguous identifiers, the seed varies with VERIF_SEED through proptest
         (idspec_strategy(None), any::<u64>())
@@ -132,6 +145,7 @@ impl Property for C09 {
             ("part2:rejected-absent".into(), m),
             ("joint:all-complete".into(), m),
             ("n=4".into(), 20),
+            ("n>=10".into(), 1),
             ("runs-with-different-thresholds".into(), m),
             ("runs-with-equal-thresholds".into(), m),
             ("own-slot:part2-rejected".into(), m),
@@ -165,11 +179,16 @@ fn check<C: Suite>(case: &Case, ctx: &mut Ctx) -> CheckResult {
 }
 
 const ABSENT: usize = 2;
+/// round-two codes SINGLE_BASE + 4*slot + kind: the matched filling with one deterministic deviation
+const SINGLE_BASE: usize = usize::MAX / 2;
 
 fn local<C: Suite>(shape: Shape, t_b: u16, ids: IdSpec, seed: u64, part: usize, own: usize, sampled: u32, ctx: &mut Ctx) -> CheckResult {
-    let shape = Shape { n: shape.n.clamp(2, 7), t: shape.t.clamp(2, shape.n.clamp(2, 7)) };
+    let shape = Shape { n: shape.n.clamp(2, 13), t: shape.t.clamp(2, shape.n.clamp(2, 13)) };
     let n = shape.n as usize;
     let part = part % n;
+    if n >= 10 {
+        ctx.label("n>=10");
+    }
     let rs = make_runs::<C>(shape, t_b, ids, seed)?;
     ctx.label(if rs.ts[0] == rs.ts[1] { "runs-with-equal-thresholds" } else { "runs-with-different-thresholds" });
     let me = rs.idv[part];
@@ -250,13 +269,29 @@ fn local<C: Suite>(shape: Shape, t_b: u16, ids: IdSpec, seed: u64, part: usize, 
             for _ in 0..sampled / 8 {
                 v.push(usize::MAX - 1 - rng.below(1 << 20) as usize);
             }
+            // every slot once with each kind of single deviation: other run to me, same run to another addressee, absent
+            for k in 0..m {
+                for kind in 0..3usize {
+                    v.push(SINGLE_BASE + k * 4 + kind);
+                }
+            }
             v
         };
         for code2 in r2_codes {
             // decode
             let matched: Vec<usize> = peers.iter().enumerate().map(|(k, _)| opts[k].iter().position(|o| *o == Some((f1[k], me))).unwrap()).collect();
             let mut f2 = vec![0usize; m];
-            if code2 == usize::MAX {
+            if (SINGLE_BASE..SINGLE_BASE + 4 * 64).contains(&code2) {
+                let k = (code2 - SINGLE_BASE) / 4;
+                let kind = (code2 - SINGLE_BASE) % 4;
+                f2 = matched.clone();
+                let want: Option<(usize, Id<C>)> = match kind {
+                    0 => Some((1 - f1[k], me)),
+                    1 => Some((f1[k], *rs.idv.iter().find(|a| **a != peers[k] && **a != me).unwrap_or(&me))),
+                    _ => None,
+                };
+                f2[k] = opts[k].iter().position(|o| *o == want).unwrap_or(matched[k]);
+            } else if code2 == usize::MAX {
                 f2 = matched.clone();
             } else if code2 > usize::MAX - (1 << 21) {
                 // one slot deviates from the matched filling
@@ -396,7 +431,7 @@ fn local<C: Suite>(shape: Shape, t_b: u16, ids: IdSpec, seed: u64, part: usize, 
 }
 
 fn joint<C: Suite>(shape: Shape, t_b: u16, ids: IdSpec, seed: u64, ctx: &mut Ctx) -> CheckResult {
-    let shape = Shape { n: shape.n.clamp(2, 7), t: shape.t.clamp(2, shape.n.clamp(2, 7)) };
+    let shape = Shape { n: shape.n.clamp(2, 13), t: shape.t.clamp(2, shape.n.clamp(2, 13)) };
     let n = shape.n as usize;
     let rs = make_runs::<C>(shape, t_b, ids, seed)?;
     let mut rng = Sm(seed ^ 0x901);
